@@ -34,7 +34,13 @@ enum {
 #define MAXST 8
 #endif
 #define O_AUX     8   /* harness specific: hash log = h, nst, st[MAXST] */
-#define O_MSG0    (O_AUX + 2 + MAXST)
+#define O_ALT     (O_AUX + 2 + MAXST)   /* second run (other stream / verbosity / parse vs context_parse): ok, value, nred; lexer-call hash */
+#define O_ALT_OK   (O_ALT + 0)
+#define O_ALT_VALUE (O_ALT + 1)
+#define O_ALT_NRED (O_ALT + 2)
+#define O_LEXHASH  (O_ALT + 3)
+#define O_LEXCALLS (O_ALT + 4)
+#define O_MSG0    (O_ALT + 5)
 #define MSG_SLOTS 5   /* kind, line, col, a, b */
 #define O_RED0    (O_MSG0 + MSG_SLOTS * MAXMSG)
 #define O_TERM0   (O_RED0 + MAXRED)
